@@ -224,7 +224,7 @@ def literal(m, S, l):
         s = repr(f)
         if "e" in s or "inf" in s or "nan" in s:
             return None
-        return s if not s.startswith("-") else f"(0.0 -. {s[1:]})" if f != 0 else "(0.0 *. (0.0 -. 1.0))"
+        return s if not s.startswith("-") else f"({s})"
     if tag == "String":
         return '"' + STRS[ev(v["s"]).as_long()] + '"'
     if tag in ("List", "Tuple"):
@@ -297,18 +297,28 @@ def main():
                 cs.append(nice(k))
         return z3.And(*cs)
 
+    def no_struct(l):
+        cs = [S.vars(l)["tag"] != S.variants.index("Struct")]
+        if S.level(l) < depth:
+            for k in S.kids(l):
+                cs.append(no_struct(k))
+        return z3.And(*cs)
+
     def replay_eq(labels, expect_fn, what, formula=None):
         def replay(m):
             lits = {l: literal(m, S, l) for l in labels}
-            if any(v is None for v in lits.values()) and formula is not None:
-                # the model's floats have no plain literal form: ask again with floats from a printable set
-                s2 = z3.Solver()
-                s2.set("timeout", 20000)
-                s2.add(*formula)
-                s2.add(*[nice(l) for l in labels])
-                if s2.check() == z3.sat:
-                    m = s2.model()
-                    lits = {l: literal(m, S, l) for l in labels}
+            if (any(v is None for v in lits.values()) or any("P{" in v or "Q{" in v for v in lits.values())) and formula is not None:
+                # the model has no plain literal form (floats without a decimal rendering, struct wrappers whose field
+                # type the test prelude cannot declare): ask again for a model from the printable part of the space
+                for extra in ([nice(l) for l in labels] + [no_struct(l) for l in labels], [nice(l) for l in labels]):
+                    s2 = z3.Solver()
+                    s2.set("timeout", 20000)
+                    s2.add(*formula)
+                    s2.add(*extra)
+                    if s2.check() == z3.sat:
+                        m = s2.model()
+                        lits = {l: literal(m, S, l) for l in labels}
+                        break
             if any(v is None for v in lits.values()) or any("P{" in v or "Q{" in v for v in lits.values()):
                 return {"reproduced": False, "detail": f"model has no plain literal form: {lits}"}
             ok, detail = expect_fn(m, lits)
